@@ -11,7 +11,7 @@
     by all co-resident wavefronts.  Histories [h] are arbitrary finite lists of
     accesses (wavefront, API function, register, RegCount, lane). *)
 From Coq Require Import NArith List Bool.
-From VIsa Require Import RegSpec RegModel RegProofs.
+From VIsa Require Import RegSpec RegModel RegProofs RegProofs2.
 Import ListNotations.
 Open Scope N_scope.
 
@@ -95,6 +95,121 @@ Theorem emu_timing_regs_agree : forall h ws st nw cs,
 Proof. exact emu_timing_agree. Qed.
 Print Assumptions emu_timing_regs_agree.
 
+(** ** register release at wavefront end (SchedulerImpl.resetRegisterValue) *)
+
+(** byte level: the release zeroes exactly the bytes of the released wavefront's
+    allocation (scalar range; vector range in all 64 lanes of its SIMD file) and
+    changes no other byte of any file, no special register, no layout field —
+    for every layout satisfying [layout_ok], adjacent allocations included *)
+Theorem timing_release_zeroes_exactly_own_bytes : forall st nw w, layout_ok st nw -> w < nw ->
+  exists st', timing_reset st w = (st', false) /\
+    t_sp st' = t_sp st /\ t_waves st' = t_waves st /\ t_bpl st' = t_bpl st /\ t_vlen st' = t_vlen st /\
+    t_slen st' = t_slen st /\ t_nsimd st' = t_nsimd st /\
+    (forall a, own_s (t_waves st w) a -> t_sreg st' a = 0) /\
+    (forall a, ~ own_s (t_waves st w) a -> t_sreg st' a = t_sreg st a) /\
+    (forall k a, own_v (t_waves st w) k a -> t_vreg st' k a = 0) /\
+    (forall k a, ~ own_v (t_waves st w) k a -> t_vreg st' k a = t_vreg st k a).
+Proof. exact timing_reset_char. Qed.
+Print Assumptions timing_release_zeroes_exactly_own_bytes.
+
+(** cell level: afterwards the released wavefront's s/v registers read zero, its
+    special registers and every cell of every co-resident wavefront are unchanged *)
+Theorem timing_release_refines_cells : forall st nw cs w, timing_R st nw cs -> w < nw ->
+  exists st', timing_reset st w = (st', false) /\ t_waves st' = t_waves st /\
+    timing_R st' nw (wupd cs w (reset_cells (nsgpr (t_waves st w)) (nvgpr (t_waves st w)) (cs w))).
+Proof. exact timing_reset_ok. Qed.
+Print Assumptions timing_release_refines_cells.
+
+(** all histories of well-formed accesses interleaved with releases *)
+Theorem timing_regs_refine_cells_with_release : forall h st nw cs,
+  timing_R st nw cs -> Forall (twf_r (t_waves st) nw) h ->
+  let ns := fun w => nsgpr (t_waves st w) in let nv := fun w => nvgpr (t_waves st w) in
+  snd (timing_run st h) = snd (tspec_run ns nv cs h) /\
+  timing_R (fst (timing_run st h)) nw (fst (tspec_run ns nv cs h)) /\
+  t_waves (fst (timing_run st h)) = t_waves st.
+Proof. exact timing_trun_ok. Qed.
+Print Assumptions timing_regs_refine_cells_with_release.
+
+(** ** frame property on storage bytes *)
+
+(** over any such history, a byte of the shared files that is not inside the
+    allocation of a wavefront acting in the history keeps its value ... *)
+Theorem timing_bytes_of_non_acting_wavefronts_unchanged : forall h st nw cs,
+  timing_R st nw cs -> Forall (twf_r (t_waves st) nw) h ->
+  (forall b, (forall a, In a h -> ~ own_s (t_waves st (a_w a)) b) -> t_sreg (fst (timing_run st h)) b = t_sreg st b) /\
+  (forall k b, (forall a, In a h -> ~ own_v (t_waves st (a_w a)) k b) -> t_vreg (fst (timing_run st h)) k b = t_vreg st k b).
+Proof. exact timing_run_bytes. Qed.
+Print Assumptions timing_bytes_of_non_acting_wavefronts_unchanged.
+
+(** ... in particular every byte outside all allocations *)
+Theorem timing_bytes_outside_allocations_unchanged : forall h st nw cs,
+  timing_R st nw cs -> Forall (twf_r (t_waves st) nw) h ->
+  (forall b, (forall w, w < nw -> ~ own_s (t_waves st w) b) -> t_sreg (fst (timing_run st h)) b = t_sreg st b) /\
+  (forall k b, (forall w, w < nw -> ~ own_v (t_waves st w) k b) -> t_vreg (fst (timing_run st h)) k b = t_vreg st k b).
+Proof.
+  intros h st nw cs R H. destruct (timing_run_bytes h st nw cs R H) as [A B].
+  rewrite Forall_forall in H. split.
+  - intros b Hb. apply A. intros a Ha. apply Hb. apply (H a Ha).
+  - intros k b Hb. apply B. intros a Ha. apply Hb. apply (H a Ha).
+Qed.
+Print Assumptions timing_bytes_outside_allocations_unchanged.
+
+(** ** outside the operand set: exactly which accesses panic, for every state,
+    every register designator, RegCount, lane and data length *)
+
+Theorem emu_panics_iff : forall s a r cnt lane,
+  snd (emu_access s a r cnt lane) = OPanic <-> emu_panics a r cnt lane = true.
+Proof.
+  intros. rewrite <- (emu_panics_exact s). destruct (snd (emu_access s a r cnt lane)); cbn; split; congruence.
+Qed.
+Print Assumptions emu_panics_iff.
+
+Theorem timing_panics_iff : forall st a,
+  snd (timing_step st a) = OPanic <-> timing_panics st a = true.
+Proof.
+  intros. rewrite <- timing_panics_exact. destruct (snd (timing_step st a)); cbn; split; congruence.
+Qed.
+Print Assumptions timing_panics_iff.
+
+(** what a panicking access leaves behind *)
+Theorem emu_panic_leaves_state : forall s a r cnt lane, snd (emu_access s a r cnt lane) = OPanic ->
+  let s' := fst (emu_access s a r cnt lane) in
+  e_sreg s' = e_sreg s /\ e_vreg s' = e_vreg s /\ e_scc s' = e_scc s /\ e_m0 s' = e_m0 s /\
+  (e_vcc s' = e_vcc s \/ e_vcc s' = keep_hi (e_vcc s) \/ e_vcc s' = keep_lo (e_vcc s)) /\
+  (e_exec s' = e_exec s \/ e_exec s' = keep_hi (e_exec s) \/ e_exec s' = keep_lo (e_exec s)).
+Proof. intros s a r cnt lane H. apply emu_panic_state. now rewrite H. Qed.
+Print Assumptions emu_panic_leaves_state.
+
+Theorem timing_panic_leaves_state : forall st a, a_api a <> AReset -> snd (timing_step st a) = OPanic ->
+  fst (timing_step st a) = st.
+Proof. intros st a Hr H. apply timing_panic_state; auto. now rewrite H. Qed.
+Print Assumptions timing_panic_leaves_state.
+
+(** WriteOperand (uint64) on an operand of three or more dwords panics in both modes *)
+Theorem wide_write_operand_panics : forall v r cnt lane st w, 3 <= cnt -> bytesize r = 4 ->
+  emu_panics (AWriteU v) r cnt lane = true /\ timing_panics st (mkAcc w (AWriteU v) r cnt lane) = true.
+Proof.
+  intros v r cnt lane st w Hc Hb.
+  assert (E : (8 <? num_bytes r cnt) = true).
+  { unfold num_bytes. rewrite Hb. destruct (2 <=? cnt) eqn:X; apply N.ltb_lt; apply N.leb_le in X || apply N.leb_gt in X; Lia.lia. }
+  unfold emu_panics, timing_panics. cbn [a_api a_reg a_cnt]. rewrite E. auto.
+Qed.
+Print Assumptions wide_write_operand_panics.
+
+(** ** written data longer than the operand: the surplus is ignored (emulation:
+    always; timing: unless a 32-bit half of vcc/exec is handed 8 or more bytes) *)
+Theorem emu_regs_refine_cells_long : forall h ws cs, emu_world_R ws cs ->
+  Forall (wf_acc_long false (fun _ => 102) (fun _ => 256)) h ->
+  snd (emu_run ws h) = snd (spec_run cs h) /\ emu_world_R (fst (emu_run ws h)) (fst (spec_run cs h)).
+Proof. exact emu_run_ok_long. Qed.
+Print Assumptions emu_regs_refine_cells_long.
+
+Theorem timing_regs_refine_cells_long : forall h st nw cs, timing_R st nw cs ->
+  Forall (fun a => a_w a < nw /\ wf_acc_long true (fun w => nsgpr (t_waves st w)) (fun w => nvgpr (t_waves st w)) a) h ->
+  snd (timing_run st h) = snd (spec_run cs h) /\ timing_R (fst (timing_run st h)) nw (fst (spec_run cs h)).
+Proof. exact timing_run_ok_long. Qed.
+Print Assumptions timing_regs_refine_cells_long.
+
 (** ** the operand set: every (register, RegCount) shape the real disassembler
     attaches to the registers the property names is covered by [wf_shape]
     (list recomputed from amd/insts by the harness on every run and compared) *)
@@ -151,3 +266,48 @@ Proof.
   - intros w. vm_compute. repeat split; reflexivity.
   - unfold demo. repeat constructor; vm_compute; try reflexivity; try discriminate; intuition discriminate.
 Qed.
+
+(** the excluded case: 8 bytes written to vcc_lo with RegCount 0 — the emulator
+    replaces the low half, the timing store (its [len(data) >= 8] test) the pair *)
+Example overlong_half_modes_differ :
+  let h := [mkAcc 0 (AWrite [1;2;3;4;5;6;7;8]) RVccLo 0 0; mkAcc 0 AReadU RVcc 0 0] in
+  snd (emu_run demo_ws h) = [ODone; OVal 67305985] /\
+  snd (timing_run demo_st h) = [ODone; OVal 578437695752307201].
+Proof. vm_compute. split; reflexivity. Qed.
+
+(** release next to adjacent allocations: wavefront 0 ends where wavefront 1
+    begins, in the scalar file and in every lane of SIMD 0 *)
+Definition demo_release : list acc :=
+  [mkAcc 0 (AWrite [1;2;3;4]) (RS 15) 0 0; mkAcc 1 (AWrite [5;6;7;8]) (RS 0) 0 0;
+   mkAcc 0 (AWrite [1;1;1;1]) (RV 3) 0 63; mkAcc 1 (AWrite [2;2;2;2]) (RV 0) 0 63; mkAcc 1 (AWriteU 9) RVccLo 0 0;
+   mkAcc 0 AReset RScc 0 0;
+   mkAcc 0 (ARead 4) (RS 15) 0 0; mkAcc 1 (ARead 4) (RS 0) 0 0; mkAcc 0 (ARead 4) (RV 3) 0 63; mkAcc 1 (ARead 4) (RV 0) 0 63;
+   mkAcc 0 (ARead 4) (RS 0) 0 0; mkAcc 0 AReadU RVcc 0 0; mkAcc 1 AReadU RVccLo 0 0; mkAcc 2 (ARead 4) (RS 0) 0 0].
+Example demo_release_answers :
+  snd (timing_run demo_st demo_release) =
+  [ODone; ODone; ODone; ODone; ODone; ODone;
+   OBytes [0;0;0;0]; OBytes [5;6;7;8]; OBytes [0;0;0;0]; OBytes [2;2;2;2];
+   OBytes [0;0;0;0]; OVal 5; OVal 9; OBytes [7;7;7;7]]
+  /\ t_sreg (fst (timing_run demo_st demo_release)) 63 = 0
+  /\ t_sreg (fst (timing_run demo_st demo_release)) 64 = 5
+  /\ t_sreg (fst (timing_run demo_st demo_release)) 5000 = 7
+  /\ Forall (twf_r (t_waves demo_st) 3) demo_release.
+Proof.
+  split; [vm_compute; reflexivity|]. repeat (split; [vm_compute; reflexivity|]).
+  unfold demo_release. repeat constructor; vm_compute; try reflexivity; try discriminate; try (left; reflexivity);
+    try (right; repeat split; try reflexivity; try discriminate; repeat constructor); intuition discriminate.
+Qed.
+
+(** the panic predicates on a few accesses of the hostile stream *)
+Example demo_panics :
+  emu_panics (ARead 8) (RS 101) 2 0 = true /\            (* s[101:102] runs over the 102 SGPRs *)
+  emu_panics (ARead 8) (RV 255) 2 62 = false /\          (* v[255:256] of lane 62 spills into lane 63 ... *)
+  emu_panics (ARead 8) (RV 255) 2 63 = true /\           (* ... and over the end of the file in lane 63 *)
+  emu_panics (AWrite [1;2;3]) RM0 0 0 = true /\
+  emu_panics (ARead 4) ROther 0 0 = true /\
+  emu_panics (ARead 8) RScc 2 0 = false /\
+  timing_panics demo_st (mkAcc 0 (ARead 8) (RS 15) 2 0) = false /\   (* reaches into wavefront 1: no panic in timing *)
+  timing_panics demo_st (mkAcc 0 (ARead 4) ROther 0 0) = true /\
+  timing_panics demo_st (mkAcc 0 (AWriteU 1) (RV 0) 3 0) = true /\
+  timing_panics demo_st (mkAcc 1 AReset RScc 0 0) = false.
+Proof. vm_compute. repeat split; reflexivity. Qed.
